@@ -310,6 +310,13 @@ def foreign_vocabulary(code_t, ref_t):
     # count) make the comparison undecided; any other foreign operation (a different solver,
     # another estimator call, squeeze/delete/stack ...) is reported as a violation.
     if foreign and foreign <= REWRITE_ONLY_OPS:
+        # ... unless such an operation decides an extent (a slice bound): truncating by a data-dependent
+        # count is a different computation, not another spelling of the reference formula
+        from . import tq
+
+        for x in tq.walk_all(code_t):
+            if x.op == "slice" and any(isinstance(b_, Term) and (_vocab(b_) & foreign) for b_ in x.args):
+                return set()
         return foreign
     # (tried and rejected: "any library call without a transfer function => undecided"; three of the
     # independent breaking changes introduce such a call - np.delete losing the column order, np.ptp in a
